@@ -35,6 +35,9 @@ def run(prop, tier, cfg):
         for v in ('http_proxy', 'https_proxy', 'all_proxy', 'no_proxy'):
             env.pop(v, None); env.pop(v.upper(), None)
         names = [t['name'] for t in cfg['tests'] if not (t.get('tier', 'quick') == 'thorough' and tier != 'thorough')]
+        # optimised code, but with the arithmetic checks of a debug build: an overflow the library would panic on in a dev /
+        # test profile (and silently wrap in a release profile) is a panic here, at the repo line that overflows
+        env['CARGO_PROFILE_RELEASE_OVERFLOW_CHECKS'] = 'true'
         # only the requested tests run (test-name filters after `--`)
         cmd = ['cargo', 'test', '--offline', '--release', '--features', 'charsets,multipart-form,json,form', '--lib', '--'] + names + ['--nocapture', '--test-threads', '8']
         try:
@@ -89,7 +92,7 @@ def run(prop, tier, cfg):
                         'obligation': 'native/%s' % t['name'], 'unit': 'native', 'fn': t['name'], 'clause': t['name'], 'kind': 'native-assertion',
                         'props': [prop], 'at_gen_line': None, 'at_src': None, 'at_text': (msg.split('\n')[-1] if msg else '')[:400],
                         'message': 'native bounded check failed: ' + msg.replace('\n', ' ')[:400], 'rendered': msg,
-                        'witness': {'test': t['name'], 'panic': msg, 'how': 'python3 vp/replay.py <this file>  (= append %s as a #[cfg(test)] child module of %s in a copy of the tree and run: cargo test --release --features charsets,multipart-form,json,form --lib -- %s --nocapture)' % (home_of(t['name'])[1], home_of(t['name'])[0], t['name'])}})
+                        'witness': {'test': t['name'], 'panic': msg, 'how': 'python3 vp/replay.py <this file>  (= append %s as a #[cfg(test)] child module of %s in a copy of the tree and run: CARGO_PROFILE_RELEASE_OVERFLOW_CHECKS=true cargo test --release --features charsets,multipart-form,json,form --lib -- %s --nocapture)' % (home_of(t['name'])[1], home_of(t['name'])[0], t['name'])}})
             else:
                 out['undecided'].append('native check %s did not run' % t['name'])
             out['summary']['harnesses'].append(rec)
